@@ -32,11 +32,11 @@ import (
 // ---------------------------------------------------------------------------------------------
 
 type c14Case struct {
-	Denoms      int     `json:"denoms"`        // number of denominations held by the source (0..4)
-	Delegations []int64 `json:"delegations"`   // FX per validator index (0 = none)
-	Unbondings  []int   `json:"unbondings"`    // validator index per unbonding entry
-	Shared      []bool  `json:"shared"`        // another delegator undelegates at the same time (same completion slice)
-	Redelegs    []int   `json:"redelegations"` // source validator index per redelegation (dst = next)
+	Denoms      int     `json:"denoms"`              // number of denominations held by the source (0..4)
+	Delegations []int64 `json:"delegations"`         // FX per validator index (0 = none)
+	Unbondings  []int   `json:"unbondings"`          // validator index per unbonding entry
+	Shared      []bool  `json:"shared"`              // another delegator undelegates at the same time (same completion slice)
+	Redelegs    []int   `json:"redelegations"`       // source validator index per redelegation (dst = next)
 	SameTime    []bool  `json:"unbonding_same_time"` // entry i starts in the same block as entry i-1 (same completion time)
 	Rewards     bool    `json:"rewards"`
 	Target      string  `json:"target"`      // fresh | balance | delegation | unbonding | operator | migrated
